@@ -19,12 +19,15 @@ func VerifC16Will() {
 	}
 	wq := vByteIn("\x00\x01")
 	wret := vBool()
-	c1 := vDial(s, vConnOpts{ver: ver, id: "c1", clean: false, keepalive: 60, will: true, willTopic: "w", willQos: byte(vConcrete(int(wq), 0, 1)), willRet: wret, willDelay: delay, seiSet: ver == 5, sei: 5000, rm: 5})
+	// an MQTT 5 client may also connect without a Session Expiry Interval: its session ends with the connection
+	noExpiry := ver == 5 && vParam("NOSEI", 0) == 1
+	c1 := vDial(s, vConnOpts{ver: ver, id: "c1", clean: false, keepalive: 60, will: true, willTopic: "w", willQos: byte(vConcrete(int(wq), 0, 1)), willRet: wret, willDelay: delay, seiSet: ver == 5 && !noExpiry, sei: 5000, rm: 5})
 	now := vNow()
 	end := vChoose(6)
 	if ver != 5 && end == 1 {
 		end = 2
 	}
+	lateWill := false
 	resumed := false // has a Clean Start 0 connection for c1 been established since the end?
 	sessionEnded := false
 	switch end {
@@ -32,10 +35,13 @@ func VerifC16Will() {
 		vSend(c1, vDisconnectBytes(ver, 0, false))
 	case 1:
 		vSend(c1, vDisconnectBytes(ver, 0x04, true))
+		sessionEnded = noExpiry
 	case 2:
 		vHangup(c1)
+		sessionEnded = noExpiry
 	case 3:
 		vSend(c1, vConnectBytes(vConnOpts{ver: ver, id: "c1", keepalive: 60})) // second CONNECT: protocol error
+		sessionEnded = noExpiry
 	case 4:
 		_ = vDial(s, vConnOpts{ver: ver, id: "c1", clean: false, keepalive: 60, seiSet: ver == 5, sei: 5000, rm: 5})
 		resumed = true
@@ -61,8 +67,15 @@ func VerifC16Will() {
 	} else if !delayed {
 		vAssert("will-published-once-at-connection-end", count() == 1)
 	} else if sessionEnded {
-		vAssert("kf-delayed-will-lost-when-clean-start-1-connection-ends-the-session", count() == 1)
-		vAssert("delayed-will-published-when-session-ends", count() == 1)
+		if end == 5 {
+			vAssert("kf-delayed-will-lost-when-clean-start-1-connection-ends-the-session", count() == 1)
+			vAssert("delayed-will-published-when-session-ends", count() == 1)
+		} else {
+			// a client without session expiry: the session ended with the connection, the will is due now. The
+			// broker waits for the delay instead (recorded class, asserted at the end of the scenario so that
+			// what happens at the later ticks is still checked)
+			lateWill = count() == 0
+		}
 	} else {
 		vAssert("delayed-will-not-published-early", count() == 0)
 	}
@@ -88,6 +101,9 @@ func VerifC16Will() {
 		vAssert("never-a-will-after-normal-disconnect", n == 0)
 	case !delayed:
 		vAssert("will-published-exactly-once", n == 1)
+	case sessionEnded && lateWill:
+		vAssert("will-of-an-ended-session-never-published-twice", n <= 1)
+		vAssert("kf-delayed-will-waits-for-the-delay-although-the-session-ended-with-the-connection", false)
 	case sessionEnded:
 		vAssert("will-published-exactly-once-after-session-end", n == 1)
 	case due:
